@@ -167,7 +167,7 @@ func (c *FnCtx) doCall(res *ssa.Call, cc *ssa.CallCommon, site ssa.Instruction) 
 		fc = c.g.contractFor(name, fn)
 		if fc != nil && c.fc != nil {
 			for _, o := range c.fc.Opaque {
-				if o == fc.Short || o == shortName(name) {
+				if fc != nil && (o == fc.Short || o == shortName(name)) {
 					fc = nil
 				}
 			}
@@ -747,6 +747,9 @@ func fieldAddrAccessor(fn *ssa.Function) (int, bool) {
 // canInline: small loop-free callees without a contract are executed in place (their real body),
 // which is more precise than treating them as pure or as havoc.
 func (c *FnCtx) canInline(fn *ssa.Function) bool {
+	if c.g.noInline[fn] {
+		return false
+	}
 	if fn.Blocks == nil || len(c.inlineStack) >= 3 || fn.Recover != nil || len(fn.FreeVars) > 0 {
 		return false
 	}
@@ -814,6 +817,24 @@ func (c *FnCtx) inlineCall(fn *ssa.Function, args []Val, resTy types.Type) (out 
 	// save caller context
 	sFn, sBlock, sIdx, sLoops, sReach, sEntry := c.fn, c.curBlock, c.curIdx, c.loops, c.reach, c.entryReach
 	sRets, sPkg := c.inlineRets, c.pkg
+	// checkpoint: a callee body the generator cannot interpret is abandoned and the call falls back to havoc
+	nItems, nObs, nAllocs, nRefs := len(c.items), len(c.obs), len(c.allocs), len(c.refVals)
+	sHeap, sGhost := c.heap, c.ghost
+	sOrd := map[string]int{}
+	for k, v := range c.ord {
+		sOrd[k] = v
+	}
+	defer func() {
+		if r := recover(); r != nil {
+			if _, isUnsup := r.(unsupported); !isUnsup {
+				panic(r)
+			}
+			c.items, c.obs, c.allocs, c.refVals = c.items[:nItems], c.obs[:nObs], c.allocs[:nAllocs], c.refVals[:nRefs]
+			c.heap, c.ghost, c.ord, c.reach = sHeap, sGhost, sOrd, sReach
+			c.g.noInline[fn] = true
+			out, ok = nil, false
+		}
+	}()
 	defer func() {
 		c.fn, c.curBlock, c.curIdx, c.loops, c.entryReach = sFn, sBlock, sIdx, sLoops, sEntry
 		c.inlineStack = c.inlineStack[:len(c.inlineStack)-1]
